@@ -431,13 +431,38 @@ func TestC13_SortFunction(t *testing.T) {
 				}
 			}
 			doc := val.O(map[string]val.Value{"a": val.A(arr...)})
-			c = mkDiff(ast.CallN("sort", ast.PathN(ast.VarN("$"), ast.NameN("a"))), doc, true)
+			call := ast.CallN("sort", ast.PathN(ast.VarN("$"), ast.NameN("a")))
+			ascending := true
+			if kind <= 3 && rapid.IntRange(0, 2).Draw(rt, "withComparator") == 0 {
+				// a comparator on an array that could also be sorted natively
+				l, r := ast.VarN("l"), ast.VarN("r")
+				var body *ast.Node
+				switch rapid.IntRange(0, 4).Draw(rt, "cmp") {
+				case 0:
+					body = ast.BinN("<", l, r) // descending
+					ascending = false
+				case 1:
+					body = ast.BinN(">", l, r) // ascending, spelled out
+				case 2:
+					body = ast.BoolN(false) // nothing ever moves: the input order
+					ascending = false
+				case 3:
+					body = ast.BinN(">", ast.CallN("length", ast.CallN("string", l)), ast.CallN("length", ast.CallN("string", r)))
+					ascending = false
+				default:
+					body = ast.BinN(">", ast.CallN("abs", ast.CallN("number", ast.CallN("boolean", l))), ast.NumN(5)) // constant false through calls
+					ascending = false
+				}
+				call = ast.CallN("sort", ast.PathN(ast.VarN("$"), ast.NameN("a")), ast.LambdaN([]string{"l", "r"}, "", body))
+				rec.Class("comparator_on_scalars")
+			}
+			c = mkDiff(call, doc, true)
 			var skip bool
 			p, _, m, skip = diffRun(c)
 			if skip {
 				return
 			}
-			if m == "" && p.Kind == port.KValue && p.Val.K == val.Arr {
+			if m == "" && ascending && p.Kind == port.KValue && p.Val.K == val.Arr {
 				// direct: ordered permutation
 				out := p.Val.A
 				if len(out) != len(arr) {
